@@ -11,8 +11,9 @@
 EXTENDS Dec, Sequences, FiniteSets, TLC
 
 CONSTANTS MINLIQ, Users,
-          StrictNested   \* TRUE: AfterTrade also demands the fees of loans completed inside (the design
-                         \* that satisfies C06); FALSE: what the code checks today (old_balance + own fees)
+          StrictNested   \* TRUE: AfterTrade also demands the fees of loans completed inside (the design that
+                         \* satisfies C06, and what the code does since the repair of S3); FALSE: what the code
+                         \* checked before (old_balance + own fees; witness: MC_Vault_S3witness.cfg)
 
 Holders == Users \cup {"vault", "adv"}
 VR(s) == s.bal -- s.fee                       \* assets owned by the share holders
